@@ -232,7 +232,9 @@ def gen_get_module():
 def kernprof_option_table():
     """(short, long, kind) for every add_argument of kernprof's option loop"""
     tree = ast.parse(src_of('kernprof.py'))
-    fn = find_func(tree, 'main')
+    # the function that builds the parsers: `main`, or `_main` behind main's thin restoring wrapper
+    fn = next((f for f in (find_func(tree, '_main'), find_func(tree, 'main'))
+               if f is not None and any(isinstance(n, ast.Attribute) and n.attr == 'add_argument' for n in ast.walk(f))), None)
     rows = []
     seen = set()
     for node in ast.walk(fn):
